@@ -240,6 +240,27 @@ static void fhook(const volatile void *p) {
     g_hook_busy++; if (g_live->erase((const void *)p)) g_frees++; g_hook_busy--;
 }
 
+// blocks reachable from the tool's / library's own static storage are process-lifetime state ("still reachable"),
+// not memory the run failed to release
+extern "C" { extern char __start_eavdata[] __attribute__((weak)); extern char __stop_eavdata[] __attribute__((weak));
+             extern char __start_eavbss[] __attribute__((weak)); extern char __stop_eavbss[] __attribute__((weak)); }
+__attribute__((no_sanitize("address"))) static void scan_words(const char *lo, const char *hi, std::map<const void *, Blk> &live, std::set<const void *> &marked, vector<const void *> &work) {
+    lo = (const char *)(((uintptr_t)lo + 7) & ~(uintptr_t)7);
+    for (const char *q = lo; q + sizeof(void *) <= hi; q += sizeof(void *)) {
+        uintptr_t w = *(const uintptr_t *)q;
+        if (w < 4096) continue;
+        for (auto &kv : live) if (w >= (uintptr_t)kv.first && w < (uintptr_t)kv.first + (kv.second.n ? kv.second.n : 1) && !marked.count(kv.first)) { marked.insert(kv.first); work.push_back(kv.first); break; }
+    }
+}
+static void drop_reachable_from_statics(std::map<const void *, Blk> &live) {
+    if (live.empty()) return;
+    std::set<const void *> marked; vector<const void *> work;
+    if (__start_eavdata) scan_words(__start_eavdata, __stop_eavdata, live, marked, work);
+    if (__start_eavbss) scan_words(__start_eavbss, __stop_eavbss, live, marked, work);
+    while (!work.empty()) { const void *p = work.back(); work.pop_back(); scan_words((const char *)p, (const char *)p + live[p].n, live, marked, work); }
+    for (auto p : marked) live.erase(p);
+}
+
 // ------------------------------------------------------------------ reference model
 static bool utf8_wellformed_noctrl(const string &s) {
     size_t i = 0, n = s.size();
@@ -385,9 +406,10 @@ struct Exec {
             // progress: no storm of reads after EOF
             for (auto &st : sim.fs) if (st.reads_after_eof > 3) viol("C20:keeps-reading-after-eof", "read callback invoked " + std::to_string(st.reads_after_eof) + " times after end of file");
             for (size_t i = 0; i < sim.fs.size(); i++) if (sim.fs[i].opened && !sim.fs[i].closed) viol("C20:file-not-closed", "input file " + std::to_string(i) + " was opened and never closed");
+            drop_reachable_from_statics(live);
             if (!live.empty()) {
                 size_t tot = 0; for (auto &kv : live) tot += kv.second.n;
-                viol("C20:memory-not-released", std::to_string(live.size()) + " block(s), " + std::to_string(tot) + " bytes allocated during the run are still live when eav returns");
+                viol("C20:memory-not-released", std::to_string(live.size()) + " block(s), " + std::to_string(tot) + " bytes allocated during the run are still allocated when eav returns and not reachable from any static of the tool or the library");
             }
         }
         for (auto &st : sim.fs) {
